@@ -423,8 +423,16 @@ template <typename T> void Integrand<T>::nested_run() const
     }
 }
 
+// a function object that returns a type wider than T (values taken from a table by call number)
+template <typename T> struct WideIntegrand
+{
+    std::vector<long double> wide;
+    template <typename P> long double operator()(P const&) { std::uint64_t const idx = g_ctx->idx++; return wide.empty() ? 0.0L : wide[idx % wide.size()]; }
+};
+
 template <typename T> struct Spec
 {
+    std::vector<long double> fwide;
     std::string kind; std::size_t dims = 1, channels = 1, mapdims = 1;
     std::vector<hep::distribution_parameters<T>> dists;
     bool force_acc = false;
@@ -642,6 +650,7 @@ template <typename T> Sx run_case(std::string const& cmd, Sx const& a)
     if (fs.at(0).is_sym("poly")) { sp.f.poly = true; for (auto const& p : fs.at(1).L_()) sp.f.ab.emplace_back(static_cast<T>(p.at(0).F_()), static_cast<T>(p.at(1).F_())); }
     else sp.f.tab = floats<T>(fs.at(1));
     sp.f.wants = num("wants", 0) != 0;
+    if (Sx const* e = a.find("fwide")) for (auto const& x : e->at(1).L_()) sp.fwide.push_back(x.F_());
     sp.f.nest = static_cast<int>(num("nest", 0)); sp.f.nest_kind = sp.kind;
     sp.f.errno_edom = num("errno", 0) != 0;
     sp.map.early = num("mapearly", 0) != 0;
@@ -725,6 +734,12 @@ template <typename T> Sx run_case(std::string const& cmd, Sx const& a)
         BuiltinCb<C> bcb{hep::callback<C>(modes[sp.mode & 3], sp.filename, sp.target), sp.mode, sp.filename, sp.keepfile, sp.cbref}; ScriptCb<C> scb{sp.script};
         BuiltinCb<C, hep::vegas_chkpt<T>> bbb{hep::callback<hep::vegas_chkpt<T>>(modes[sp.mode & 3], sp.filename, sp.target), sp.mode, sp.filename, sp.keepfile, sp.cbref};
         result = run_ops<T>(sp, ops, chk, [&](std::vector<std::size_t> const& calls, C const& c) -> C {
+            if (!sp.fwide.empty())
+            {
+                // a user function whose return type is wider than the numeric type of the integration
+                auto iw = hep::make_integrand<T>(WideIntegrand<T>{sp.fwide}, sp.dims);
+                return hep::vegas(iw, calls, c, scb);
+            }
             auto i1 = mk_int1<T>(sp); auto i0 = mk_int0<T>(sp);
             std::uint64_t const before = g_ctx->idx;
             C r = (sp.builtin && sp.cbbase) ? (with_dists ? hep::vegas(i1, calls, c, bbb) : hep::vegas(i0, calls, c, bbb))
